@@ -539,6 +539,36 @@ func c04Worker(c *core.Ctx, job hashJob, res *core.ShardResult, wl *core.WLog) {
 		fmt.Fprintf(w, "%s\t%s\t%s\t%d\t%d\t%s\n", mk, sk, o.Digest, st.ID, nf, lj)
 		res.Count("self_tail_variants", 1)
 	}
+	// a file of three different 4 MiB blocks and its rearrangements: same length, same blocks, other order
+	if st.ID == 0 {
+		hugePriv := fmt.Sprintf("privhuge.%d", os.Getpid())
+		hugeFull := filepath.Join(st.Root, hugePriv)
+		blk := func(seed byte) []byte {
+			b := make([]byte, 4<<20)
+			x := uint32(seed) + 1
+			for i := range b {
+				x = x*1664525 + 1013904223
+				b[i] = byte(x >> 24)
+			}
+			return b
+		}
+		b0, b1, b2 := blk(0), blk(1), blk(2)
+		for _, order := range [][][]byte{{b0, b1, b2}, {b1, b0, b2}, {b0, b2, b1}, {b0, b1, b2}} {
+			body := bytes.Join(order, nil)
+			_ = os.WriteFile(hugeFull, body, 0o644)
+			o := callHash([]string{hugeFull}, false, nil)
+			res.Evaluations++
+			if o.Err != nil {
+				continue
+			}
+			tmp := hashState{Root: st.Root, Sums: map[string]string{hugePriv: core.ShaHex(body)}}
+			mk, sk, nf := c04Keys(tmp, []string{hugePriv})
+			lj, _ := json.Marshal([]string{fmt.Sprintf("%s (%d bytes, sha256 %s)", hugePriv, len(body), core.ShaHex(body)[:12])})
+			fmt.Fprintf(w, "%s\t%s\t%s\t%d\t%d\t%s\n", mk, sk, o.Digest, st.ID, nf, lj)
+			res.Count("rearranged_12MiB_files", 1)
+		}
+		_ = os.Remove(hugeFull)
+	}
 	// within one process: the content of a file changes while its size and modification time stay
 	// the same (cp -p, rsync -t, a build step restoring timestamps)
 	priv := fmt.Sprintf("priv.%d.%d", os.Getpid(), st.ID)
